@@ -168,8 +168,10 @@ def rank_clipped(ctx: Ctx):
     from .state import _resolve_at
 
     repo, res = ctx.repo, ctx.res
+    from ..inline import with_inlined
+
     for q in SEQUENTIAL:
-        f = repo.func(q)
+        f = with_inlined(repo, repo.func(q))  # the split (clip, SVD, carry-over) may live in a private helper
         calls = [c for c in own_scope_nodes(f.node) if isinstance(c, ast.Call) and call_name(c) == "svd_interface"]
         if not calls:
             raise AnalysisError(f"RANK-CLIPPED: no svd_interface call in {q}")
@@ -213,7 +215,18 @@ def rank_clipped(ctx: Ctx):
                     # or it is used in the core's reshape
                     in_rank = isinstance(ne, ast.Subscript) and is_name(ne.value, "rank")
                     stored = in_rank or (isinstance(ne, ast.Name) and any(isinstance(s_.targets[0], ast.Subscript) and is_name(s_.targets[0].value, "rank") and is_name(s_.value, ne.id) for s_ in assigns))
-                    used_for_core = isinstance(ne, ast.Name) and any(isinstance(c2, ast.Call) and call_name(c2) == "reshape" and len(c2.args) >= 2 and any(isinstance(n, ast.Name) and n.id == ne.id for n in ast.walk(c2.args[1])) for c2 in own_scope_nodes(f.node))
+                    # (the clipped number may be handed on under another name: right_rank = kept_rank)
+                    same = {ne.id} if isinstance(ne, ast.Name) else set()
+                    for _ in range(3):
+                        for s_ in assigns:
+                            if len(s_.targets) == 1 and isinstance(s_.targets[0], ast.Name) and isinstance(s_.value, ast.Name) and s_.value.id in same:
+                                same.add(s_.targets[0].id)
+                            elif len(s_.targets) == 1 and isinstance(s_.targets[0], (ast.Tuple, ast.List)) and isinstance(s_.value, (ast.Tuple, ast.List)) and len(s_.targets[0].elts) == len(s_.value.elts):
+                                for t_, v_ in zip(s_.targets[0].elts, s_.value.elts):
+                                    if isinstance(t_, ast.Name) and isinstance(v_, ast.Name) and v_.id in same:
+                                        same.add(t_.id)
+                    stored = stored or any(isinstance(s_.targets[0], ast.Subscript) and is_name(s_.targets[0].value, "rank") and isinstance(s_.value, ast.Name) and s_.value.id in same for s_ in assigns)
+                    used_for_core = isinstance(ne, ast.Name) and any(isinstance(c2, ast.Call) and call_name(c2) == "reshape" and len(c2.args) >= 2 and any(isinstance(n, ast.Name) and n.id in same for n in ast.walk(c2.args[1])) for c2 in own_scope_nodes(f.node))
                     stored = stored or used_for_core
                     ok = both_sides and has_rank and stored
                     verdict = f"min({', '.join(src(a_) for a_ in orig_args)}); both sides of the unfolding: {both_sides}; requested rank: {has_rank}; kept: {stored}"
